@@ -20,6 +20,15 @@ def run_case(ctx, case):
     rec.count("mode", mode)
     rec.count("weights", "rational" if W is not None else "polynomial")
     curve = make_curve(U, P, W)
+    if c.get("twin"):
+        # the same request on float data first: whatever the library memoises on (numerically equal) knot tuples is now float
+        def twin():
+            t = float_twin(U, P, W)
+            if mode == "roundtrip":
+                t.knot_insert([float(x) for x in nodes])
+            t.knot_remove([float(x) for x in nodes])
+        impl(twin)
+        rec.count("twin", "float-first")
     if mode == "roundtrip":
         orig = curve_state(curve)
         r = impl(lambda: curve.knot_insert(list(nodes)))
@@ -121,6 +130,16 @@ def run(ctx):
     # corpus: D5 witness (rational insert/remove)
     run_case(ctx, ser(dict(kind="remove", U=[F(0), F(1)], P=[(F(7),)], W=[F(4)], mode="roundtrip", nodes=[F(1, 2)])))
     import props.c04 as c04
+    for i in range(budget(ctx, 16, 200)):
+        # dyadic knots, float twin first: exact removals must stay exact whatever ran before
+        U = rand_dyadic_kv(rng, pmax=3, nintmax=2)
+        p, n, knots = kv_info(U)
+        P = rand_points(rng, n, rng.choice([1, 2]))
+        W = rand_weights(rng, n, "pos") if (i % 4 == 1 and p <= 2) else None
+        free = [x for x in DYADIC if U.count(x) < p + 1]
+        nodes = sorted(rng.sample(free, rng.randint(1, 2)))
+        tol = "default" if i % 3 else F(1, 10**30)
+        run_case(ctx, ser(dict(kind="remove", U=U, P=P, W=W, mode="roundtrip", nodes=nodes, twin=True, tol=tol)))
     for i in range(budget(ctx, 110, 1500)):
         mode = rng.choice(["roundtrip"] * 4 + ["generic", "generic", "tolerant", "forced", "absent", "endknot"])
         U, P, W = rand_curve(rng, pmax=3, nintmax=2, force_zero=(i % 7 == 0))
